@@ -9,7 +9,14 @@ PLAN = {
     "C06": [("A", 12000, 1500000, {})],
     "C07": [("A", 6000, 600000, {})],
     "C11": [("A", 8000, 800000, {})],
-    "C18": [("A", 6000, 500000, {})],
+    "C18": [("A", 6000, 500000, {}), ("B", 1000, 80000, {})],
+    "C03": [("B", 1500, 120000, {})],
+    "C08": [("B", 1200, 100000, {})],
+    "C09": [("B", 1500, 120000, {})],
+    "C10": [("B", 1500, 120000, {})],
+    "C15": [("B", 1200, 100000, {})],
+    "C16": [("B", 1000, 80000, {})],
+    "C17": [("B", 1200, 100000, {})],
 }
 
 THOROUGH_BUDGET_S = 900
